@@ -1551,7 +1551,7 @@ var _ = atomic.AddInt32
 
 func main() {
 	vf.Main("C20", "fault_enumeration", func(c *vf.Ctx) {
-		c.Rule = "child processes, one configuration row at a time (the environment is process-global). Exporter table (enumerated completely): six OTLP exporters x {endpoint(+URL path), headers, compression, timeout} x option{absent,valid} x signal-specific env{absent,valid,invalid} x generic env{absent,valid,invalid}; each source carries a distinct valid value and the effective value is observed behaviourally at loopback collectors (who received the request, URL path, header, Content-Encoding / gRPC compressor, handler deadline / client hang-up time). SDK table (enumerated completely): OTEL_BSP_* and OTEL_BLRP_* x option x {absent, valid, abc, 1.5, -1, -2147483649, 99999999999999999999, 0x10, ' 5 ', 0}, OTEL_SPAN_*/OTEL_ATTRIBUTE_*/OTEL_*_ATTRIBUTE_COUNT_LIMIT and OTEL_LOGRECORD_* limits observed on probe spans/records, OTEL_TRACES_SAMPLER x _ARG x option observed on sampling decisions. distinct = distinct rows"
+		c.Rule = "child processes, one configuration row at a time (the environment is process-global). Exporter table (enumerated completely): six OTLP exporters x {endpoint(+URL path), headers, compression, timeout} x option{absent,valid} x signal-specific env{absent,valid,invalid} x generic env{absent,valid,invalid}; each source carries a distinct valid value and the effective value is observed behaviourally at loopback collectors (who received the request, URL path, header, Content-Encoding / gRPC compressor, handler deadline / client hang-up time). SDK table (enumerated completely): OTEL_BSP_* and OTEL_BLRP_* x option x {absent, valid, abc, 1.5, -1, -2147483649, 99999999999999999999, 0x10, ' 5 ', 0}, OTEL_SPAN_*/OTEL_ATTRIBUTE_*/OTEL_*_ATTRIBUTE_COUNT_LIMIT and OTEL_LOGRECORD_* limits observed on probe spans/records, OTEL_TRACES_SAMPLER x _ARG x option observed on sampling decisions; all-zero raw span limits option; header and timeout rows over a caller-supplied gRPC connection / an HTTP client with a proxy function. distinct = distinct rows"
 		c.Assume = []string{"for an invalid value the accepted outcomes are: as if the source were absent, or the default (for integers that parse: also their documented meaning)", "the default OTLP endpoint (localhost:4317/4318) is observed only as 'none of the harness collectors received the request'", "HTTP timeouts are classified by the time the client keeps a held request open (hard lower bound, candidates 0.4/1.2/2.5/10 s)"}
 		otel.SetErrorHandler(otel.ErrorHandlerFunc(func(error) {}))
 		otel.SetLogger(logr.Discard())
